@@ -85,7 +85,10 @@ PROPS["C01"] = dict(
     level_text="TLC enumerates every tie vector with N <= 9 (thorough 12), every n1 and every allocation of tied values to the two samples, computing 2U and the exact cumulative tail counts over C(N,n1) (cross-checked against literal subset enumeration for N <= 7); the binder materialises each allocation under strictly increasing value maps and shuffles, calls MannWhitneyUTest for the three alternatives and compares N1, N2, U exactly and P to the exact rational",
     level_note=_mw_note,
     stages=[dict(name="gen", kind="gen", module="MannWhitney.tla", cfg="MW_gen.cfg",
-                 consts=dict(MaxN={"quick": 9, "thorough": 12}, CrossN={"quick": 7, "thorough": 8}, Configs="ConfigsDefault"))],
+                 consts=dict(MaxN={"quick": 9, "thorough": 12}, CrossN={"quick": 7, "thorough": 8}, Configs="ConfigsDefault")),
+            dict(name="trace", kind="trace", module="MannWhitneyTrace.tla", cfg="MannWhitneyTrace.cfg",
+                      consts=dict(DPMaxN={"quick": 12, "thorough": 18}),
+                      record_args={"quick": ["-n", 24, "-calls", 5, "-max", 80], "thorough": ["-n", 480, "-calls", 8, "-max", 300]})],
 )
 PROPS["C02"] = dict(
     family="udist", specdir="mw",
@@ -99,7 +102,10 @@ PROPS["C03"] = dict(
     family="mw", specdir="mw",
     technique="TLA+ state machine with the two limit variables as state (SetLimits) and Test returning error / exact tails / normal-approximation descriptor; enumerated by TLC under four limit configurations and replayed into MannWhitneyUTest with swap, shuffle, monotone-map and argument-immutability checks",
     level_text="TLC enumerates every tie vector with N <= 7 (thorough 9), every split including empty samples and single-valued pools, under the limit configurations (50,25), (0,0), (3,2), (1000,1000); each case carries the expected error or method and either exact tails or the approximation descriptor (variance as an exact rational, continuity-corrected numerator); the binder sets the public limit variables, calls the test for all alternatives, the swapped call, shuffled and monotonically mapped data, and snapshots the arguments",
-    level_note=_mw_note + " Sizes of several hundred values are not yet reached (trace direction for mw not built yet); the formulas are size-independent and both methods are exercised on the same small data.",
+    level_note=_mw_note + " In the trace direction (samples up to 300 values, limits changed mid-history) TLC decides U, errors, the method switch-over, twin laws and - for pools up to DPMaxN - the exact P; the numeric value of the approximate P at large sizes is decided in the replay direction on small pools only (the formula is size-independent).",
     stages=[dict(name="gen", kind="gen", module="MannWhitney.tla", cfg="MW_gen.cfg",
-                 consts=dict(MaxN={"quick": 7, "thorough": 9}, CrossN={"quick": 6, "thorough": 7}, Configs="ConfigsFour"))],
+                 consts=dict(MaxN={"quick": 7, "thorough": 9}, CrossN={"quick": 6, "thorough": 7}, Configs="ConfigsFour")),
+            dict(name="trace", kind="trace", module="MannWhitneyTrace.tla", cfg="MannWhitneyTrace.cfg",
+                      consts=dict(DPMaxN={"quick": 12, "thorough": 18}),
+                      record_args={"quick": ["-n", 24, "-calls", 5, "-max", 80], "thorough": ["-n", 480, "-calls", 8, "-max", 300]})],
 )
